@@ -75,7 +75,7 @@ def run(ctx):  # noqa: C901, PLR0912, PLR0915
                  and l.target.id == enc.id]
         if loops:
             peer = loops[-1].iter
-            m = [txt for txt, pol in facts if pol is True and txt.startswith(f'{enc.id} in ')
+            m = [txt for txt, pol in facts.both() if pol is True and txt.startswith(f'{enc.id} in ')
                  and txt.endswith('supported_encodings')]
             member = m[0].split(' in ', 1)[1] if m else None
         else:
@@ -94,6 +94,10 @@ def run(ctx):  # noqa: C901, PLR0912, PLR0915
                 if (f'{enc.id} is None', False) not in facts and (enc.id, True) not in facts:
                     member = None  # the "nothing matched" default may reach compress_payload
         src_ok = False
+        # `for enc in LIST or ():` - the empty default stands for "nothing accepted"
+        if isinstance(peer, ast.BoolOp) and isinstance(peer.op, ast.Or) and len(peer.values) == 2 and \
+                isinstance(peer.values[1], (ast.Tuple, ast.List)) and not peer.values[1].elts:
+            peer = peer.values[0]
         src_txt = unparse(peer) if peer is not None else ''
         if isinstance(peer, ast.Name):
             src_ok = any(isinstance(v, ast.Call) and call_name(v) == 'parse_header' for v in assigns.get(peer.id, []))
@@ -163,6 +167,27 @@ def run(ctx):  # noqa: C901, PLR0912, PLR0915
                    f'{ci.name}.{attr} is handed out as supported_encodings by reference but re-bound in {rebinds}: soap clients '
                    f'/ the HTTP server created before keep the old list and go on using codings that were disabled locally',
                    where=cq, witness=rebinds)
+    # the locally enabled codings of a client are the list it was given - also when that list is empty ("no compression");
+    # only a missing argument (None) stands for "all available codings"
+    sci = repo.func('sdc11073.pysoap.soapclient.SoapClient.__init__')
+    gi = cfg_of(sci)
+    sites = [(n, n.stmt.value) for n in gi.real_nodes() if n.kind == 'stmt' and isinstance(n.stmt, ast.Assign) and
+             unparse(n.stmt.targets[0]) == 'self.supported_encodings']
+    ok = bool(sites)
+    for n, v in sites:
+        for facts, leaf in gi.value_cases(n, v):
+            t = unparse(leaf)
+            if t == 'supported_encodings':
+                ok = ok and (('supported_encodings is None', False) in facts) and ('supported_encodings', True) not in list(facts)
+            else:
+                # the default is taken only for None
+                ok = ok and ('supported_encodings is None', True) in facts
+    ctx.ob('C17.R1', 'client keeps the configured list of codings', ok,
+           'SoapClient uses the supported_encodings it was given whenever the argument is not None (an empty list stays '
+           'empty)' if ok else
+           'SoapClient replaces a falsy supported_encodings argument by all available codings: a side that switched '
+           'compression off (empty list) still compresses its requests, advertises and accepts every coding', fi=sci)
+
     # ------------------------------------------------------------------ R2
     ph = repo.func(f'{CH}.parse_header')
     ok, why = _q_zero_excluded(ph.node)
@@ -180,7 +205,7 @@ def run(ctx):  # noqa: C901, PLR0912, PLR0915
             continue
         facts = g.facts_at(node) if node is not None else []
         et = unparse(enc) if enc is not None else '?'
-        member = [txt for txt, pol in facts if pol is True and txt.startswith(f'{et} in ')]
+        member = [txt for txt, pol in facts.both() if pol is True and txt.startswith(f'{et} in ')]
         # a coding that is present but not in the supported set never reaches the normal exit (path condition of the exit
         # as a truth table: guard clause or else-branch, `in` or `not in` - all the same)
         raises = False
@@ -278,6 +303,8 @@ def run(ctx):  # noqa: C901, PLR0912, PLR0915
     for b in gd.nodes:
         if b.kind == 'break' and b.loops and b.loops[-1] in main_loops:
             exits.append(gd.facts_at(b))
+        if b.kind == 'return' and any(lp in main_loops for lp in b.loops):   # `return b''.join(body)` from inside the loop
+            exits.append(gd.facts_at(b))
         if b.kind == 'branch' and b.label is False and b.stmt in main_loops and not isinstance(b.test, ast.Constant):
             f = Facts()
             _atoms(b.test, False, f)
@@ -298,7 +325,7 @@ def run(ctx):  # noqa: C901, PLR0912, PLR0915
         for n, c in g2.nodes_calling('mk_chunks'):
             n_mk += 1
             facts = g2.facts_at(n)
-            ok = any(pol is True and txt.endswith('chunk_size > 0') for txt, pol in facts)
+            ok = any(pol is True and txt.endswith('chunk_size > 0') for txt, pol in facts.both())
             ctx.ob('C17.R4', f'{fi.name}: {unparse(c)[:50]}', ok,
                    f'{fi.name}: chunked framing is used only when chunk_size > 0 (mk_chunks with size 0 would drop the '
                    f'body)', fi=fi, node=c, witness={'facts': facts})
